@@ -888,7 +888,7 @@ pub fn run_script(script: &Value, run: i64, verbose: bool) -> String {
     let seed = script.get("seed").and_then(|x| x.as_u64()).unwrap_or(1);
     let sh = Sh::new(seed, cfg.net.clone(), verbose);
     sh.logv(json!({"ev":"Reset","run":run,"lossless":cfg.net.loss_pm == 0,"ordered":cfg.net.jitter_us == 0,"dup":cfg.net.dup_pm > 0,
-                   "idle":cfg.idle_ms > 0,"maxuni":cfg.max_uni,"maxbi":cfg.max_bi,"window":cfg.stream_window,
+                   "idle":cfg.idle_ms > 0,"maxuni":cfg.max_uni,"maxbi":cfg.max_bi,"window":cfg.stream_window,"sendwin":cfg.send_window.min(1_000_000_000),
                    "clients":cfg.clients}));
 
     let tcfg = Arc::new(transport(&cfg));
